@@ -2,7 +2,8 @@
 //! tier, every whole day 0..=2958465 in both systems in the thorough tier) and logged as events
 //! for Trace_ExcelDate.tla; several access paths are required to agree before an event is logged.
 use crate::common::*;
-use calamine::{Data, DataRef, DataType, ExcelDateTime, ExcelDateTimeType};
+use calamine::{Data, DataRef, DataType, ExcelDateTime, ExcelDateTimeType, Range};
+use serde::Deserialize;
 use chrono::{Datelike, NaiveDateTime, Timelike};
 use rand::rngs::StdRng;
 use rand::{Rng, SeedableRng};
@@ -10,6 +11,32 @@ use serde_json::{json, Value};
 use std::io::Write;
 
 const DAY_MS: f64 = 86_400_000.0;
+
+#[derive(Deserialize)]
+struct HelperRow {
+    #[serde(deserialize_with = "calamine::deserialize_as_datetime_or_none")]
+    dt: Option<NaiveDateTime>,
+    #[serde(deserialize_with = "calamine::deserialize_as_date_or_none")]
+    d: Option<chrono::NaiveDate>,
+    #[serde(deserialize_with = "calamine::deserialize_as_time_or_none")]
+    t: Option<chrono::NaiveTime>,
+    #[serde(deserialize_with = "calamine::deserialize_as_datetime_or_string")]
+    dts: Result<NaiveDateTime, String>,
+    #[serde(deserialize_with = "calamine::deserialize_as_duration_or_none")]
+    dur: Option<chrono::Duration>,
+}
+
+/// the serde fallback helpers on one cell (the same cell under five headers)
+fn helpers(cell: Data) -> Result<HelperRow, String> {
+    let mut r: Range<Data> = Range::new((0, 0), (1, 4));
+    for (i, h) in ["dt", "d", "t", "dts", "dur"].iter().enumerate() {
+        r.set_value((0, i as u32), Data::String(h.to_string()));
+        r.set_value((1, i as u32), cell.clone());
+    }
+    let mut it = r.deserialize::<HelperRow>().map_err(|e| e.to_string())?;
+    it.next().ok_or("no record")?.map_err(|e| e.to_string())
+}
+
 
 fn ymd(dt: &NaiveDateTime) -> Value {
     json!([dt.year(), dt.month(), dt.day()])
@@ -43,6 +70,15 @@ fn convert(value: f64, is_1904: bool, whole: Option<i64>) -> Result<Option<Naive
         }
         if !is_1904 && (Data::Float(value).as_date() != a.map(|d| d.date()) || Data::Float(value).as_time() != a.map(|d| d.time())) {
             return Err("Float as_date/as_time are not the components of as_datetime".to_string());
+        }
+        // serde helpers (1900 system: they see the cell as a plain number)
+        if !is_1904 {
+            for c in [Data::Float(value), Data::DateTime(edt)] {
+                let h = helpers(c)?;
+                if h.dt != a || h.d != a.map(|d| d.date()) || h.t != a.map(|d| d.time()) || h.dts.ok() != a {
+                    return Err("deserialize_as_date/time/datetime helpers disagree with as_datetime".to_string());
+                }
+            }
         }
         Ok(a)
     });
@@ -155,6 +191,17 @@ pub fn drive(args: &Args) -> i32 {
             writeln!(o, "{}", dur_event(serial, k, 0.4)).unwrap();
             writeln!(o, "{}", dur_event(0, k, -0.4 * ((k > 0) as i64 as f64))).unwrap();
         }
+    }
+    // serde helpers on cells that carry more than a number: the 1904 flag and the duration flavour
+    {
+        let cell = Data::DateTime(ExcelDateTime::new(44000.25, ExcelDateTimeType::DateTime, true));
+        let want = cell.as_datetime();
+        let got = catch(|| helpers(cell.clone())).ok().and_then(|r| r.ok()).and_then(|h| h.dt);
+        writeln!(o, "{}", json!({"e": "helper", "key": "dev:Helper1904Lost", "what": "1904 DateTime cell through deserialize_as_datetime_or_none", "agree": got == want, "got": format!("{:?}", got), "want": format!("{:?}", want)})).unwrap();
+        let cell = Data::DateTime(ExcelDateTime::new(1.5, ExcelDateTimeType::TimeDelta, false));
+        let want = cell.as_duration();
+        let got = catch(|| helpers(cell.clone())).ok().and_then(|r| r.ok()).and_then(|h| h.dur);
+        writeln!(o, "{}", json!({"e": "helper", "key": "dev:HelperDurationNone", "what": "duration cell through deserialize_as_duration_or_none", "agree": got == want, "got": format!("{:?}", got), "want": format!("{:?}", want)})).unwrap();
     }
     // beyond the representable calendar -> None (never a panic, never a wrong date)
     for (what, v) in [("1e15", 1e15), ("1e20", 1e20), ("+inf", f64::INFINITY), ("-1e20", -1e20), ("-inf", f64::NEG_INFINITY), ("f64::MAX", f64::MAX), ("f64::MIN", f64::MIN)] {
